@@ -641,7 +641,11 @@ func (r *screenRun) run(ops []sop, w, h int, truecolor bool, altscreen bool) err
 			mine := append([]rune(nil), o.Comb...)
 			switch (o.X*7 + o.Y*3 + int(o.R) + len(o.Comb)) % 6 { // a fifth of the stores go through the older SetCell
 			case 0:
-				s.SetCell(o.X, o.Y, o.St, append([]rune{o.R}, mine...)...)
+				if o.R == ' ' && len(mine) == 0 && (o.X+o.Y)%2 == 0 {
+					s.SetCell(o.X, o.Y, o.St) // documented: no runes at all is a blank
+				} else {
+					s.SetCell(o.X, o.Y, o.St, append([]rune{o.R}, mine...)...)
+				}
 			default:
 				s.SetContent(o.X, o.Y, o.R, mine, o.St)
 			}
